@@ -230,6 +230,7 @@ _R9 = {
  "C01": " Plus: 3-8 goroutines calling List/Get flat out (real time) against ONE writer whose reference states are known: a read that began after operation i returned and ended before operation j started returns the content after one of the prefixes i..j; the writer's own List right after its operation returns exactly that prefix's content.",
  "C02": " Plus: in the concurrent-readers cases a SECOND cache with its own writer is updated at the same time; every batch an operation returns holds exactly the events of that operation on that cache.",
  "C03": " Plus: a relist that turns up a difference of 2-90 objects followed AT ONCE (changes placed right after the list's snapshot, delivered by the watch session opened at the list's version) by watch events for objects of that difference: replaying a subscriber's stream gives the controller's cache; an object learnt from the watch whose Delete the stream loses is gone after the next completed list whatever that list's ordinal (both parities, names re-used).",
+ "C06": " Plus: NSName filters built (spread form) from ONE slice the caller keeps editing and re-using, on a filtered subscription and a filtered clone, with parent events flowing between the edits and the Refilters: the node mirrors the selection of the ids its filter was BUILT from.",
  "C10": " Plus: a never-reading filtered subscription holding H<100 events when a Refilter produces a batch that only partly fits: it ends with min(H+T,100) events (the H earlier ones in order, then distinct events of the batch), a reading sibling gets all of a batch that fits its emptied buffer.",
  "C12": " Plus: the user's context is of a hand-written type (own Done channel, opaque to package context) and is never cancelled: after Close / Close x3 / a failing list the census - taken BEFORE that context is cancelled and including the watcher goroutines package context runs for contexts derived from such a parent - is empty.",
 }
@@ -244,9 +245,9 @@ for _p, _t in _R9.items():
 FLOORS_QUICK = {
  "C01": {
   "concurrent-reader-cases": 6,
-  "concurrent-reads": 18452,
+  "concurrent-reads": 17255,
   "long-lived-probes": 73,
-  "reads-during-operation": 84,
+  "reads-during-operation": 82,
   "states": 232,
   "walks": 80,
   "writer-reads-after-own-write": 4500
@@ -254,7 +255,7 @@ FLOORS_QUICK = {
  "C02": {
   "batches-checked-with-another-cache-emitting": 718,
   "ops-silent": 390930,
-  "ops-with-events": 1980213,
+  "ops-with-events": 1980214,
   "states": 232
  },
  "C03": {
@@ -268,7 +269,7 @@ FLOORS_QUICK = {
   "post-list-checks": 324,
   "relist-at-reconnect-expiry-cases": 60,
   "relist-then-watch-mirror-checks": 144,
-  "restart-version-checks": 5471,
+  "restart-version-checks": 5470,
   "status-at-relist-cases": 36
  },
  "C04": {
@@ -290,13 +291,14 @@ FLOORS_QUICK = {
   "stale-wire-events": 2362
  },
  "C06": {
-  "filtered-node-checks": 35896,
-  "filtered-node-checks-nonempty": 22023,
+  "caller-slice-mirror-checks": 140,
+  "filtered-node-checks": 35900,
+  "filtered-node-checks-nonempty": 22026,
   "late-first-filter-cases": 12,
-  "mid-flow-closes": 709,
-  "mirror-checks": 9437,
+  "mid-flow-closes": 710,
+  "mirror-checks": 9454,
   "ready-moments": 640,
-  "refilters": 6465
+  "refilters": 6466
  },
  "C07": {
   "back-to-back-refilters": 4096,
@@ -341,7 +343,7 @@ FLOORS_QUICK = {
   "stalled-refilter-checks": 19,
   "stalled-streams-checked": 171,
   "stress-typed-cases": 8,
-  "stress-typed-reads": 1430
+  "stress-typed-reads": 1256
  },
  "C11": {
   "outside-nodes-checked": 813,
@@ -352,7 +354,7 @@ FLOORS_QUICK = {
  },
  "C12": {
   "opaque-ctx-censuses": 130,
-  "post-done-api-calls": 51896,
+  "post-done-api-calls": 51802,
   "racing-calls": 4599,
   "set:trigger-points": 23,
   "stops-at-reconnect-expiry": 48,
